@@ -38,6 +38,18 @@ CHECKS['C20'] = dict(cat='other', xhair=True, engine='symnp + crosshair',
          'solver-enumerated shapes; unbroadcast/broadcast_arrays_minimal/view_shape/categorical arrays over all stride '
          'patterns / views / letter assignments inside the bounds.', ref='5/C20')
 
+CHECKS['C12'] = dict(cat='other', engine='symnp + z3 table encoding',
+    technique='symbolic execution of VersionedDict (solver-enumerated versions) + SMT encoding of the redirect table (bounded unrolling)',
+    text='VersionedDict: the real class is executed on every sequence of writes whose versions are solver variables (each feasible '
+         'value enumerated by all-SAT where the code calls int()), asserting consecutive-from-1, no overwrite, newest wins. '
+         'Redirect table: read from the current source and encoded in z3; termination of the real lookup loop is the '
+         'unsatisfiability of "still a key after len(table)+1 steps"; importability of in-package targets, capture of live '
+         'glue.core classes and registry consistency (consecutive versions, loader for every saver version) are finite scans '
+         'of the current tables (auxiliary, concrete). Old protocol versions of Data/DataCollection are re-loaded with symbolic '
+         'payload once the C02 machinery is present.', ref='5/C12',
+    note='versions bounded to [-2, V], 2 keys, K writes; capture check judged for glue.core.* keys only (viewer/dialog classes '
+         'redirected to glue_qt are reported in evidence, not judged)')
+
 NOT_YET = {}
 
 NOT_APPLICABLE = {
